@@ -1026,3 +1026,124 @@ func RunFailedSaveThenShutdownCase(seed int64, workDir string) *HistResult {
 	}
 	return res
 }
+
+// RunPersistDuringShutdownCase (C11, persist-interval clause): the runner is alive as long as Shutdown has not returned.
+// A graceful shutdown is waiting for a running job when another running job is canceled (acknowledged): that change
+// reaches the store within the persist interval like every other one - a process that is killed while it drains must
+// not lose it. Elapsed time is counted in heartbeats of the harness (limit 10 s for the 3 s interval).
+func RunPersistDuringShutdownCase(seed int64) *HistResult {
+	res := &HistResult{Seed: seed, Situations: map[string]map[string]struct{}{}, Evaluations: map[string]int{}}
+	find := func(sig, format string, args ...any) {
+		res.Findings = append(res.Findings, Finding{Props: []string{"C11"}, Sig: sig, Detail: fmt.Sprintf(format, args...), Step: -1})
+	}
+	def := definition.PipelineDef{Concurrency: 2, Tasks: map[string]definition.TaskDef{
+		"a": {Script: []string{"true"}}, "b": {Script: []string{"true"}, DependsOn: []string{"a"}}}, SourcePath: "gen"}
+	rec := &core.RecStore{}
+	sys, err := core.NewSys(&definition.PipelinesDef{Pipelines: map[string]definition.PipelineDef{"p": def}}, rec, core.NewMemOutputStore())
+	if err != nil {
+		res.Inconclusive = err.Error()
+		return res
+	}
+	defer sys.Close()
+	defer DrainAll(sys)
+	var beats atomic.Int64
+	stop := make(chan struct{})
+	go func() {
+		tk := time.NewTicker(10 * time.Millisecond)
+		defer tk.Stop()
+		for {
+			select {
+			case <-stop:
+				return
+			case <-tk.C:
+				beats.Add(1)
+			}
+		}
+	}()
+	defer close(stop)
+	const limitBeats = 1000
+	waitSaved := func(pred func(s *core.SaveRecord) bool) bool {
+		start := beats.Load()
+		for beats.Load()-start < limitBeats {
+			if saves := rec.Saves(); len(saves) > 0 {
+				if s := saves[len(saves)-1]; s.Err == nil && pred(s) {
+					return true
+				}
+			}
+			time.Sleep(5 * time.Millisecond)
+		}
+		return false
+	}
+	x, c1 := sys.Schedule(0, "p", nil, "u")
+	y, c2 := sys.Schedule(0, "p", nil, "u")
+	if c1 != "ok" || c2 != "ok" {
+		res.Inconclusive = "schedule: " + c1 + " " + c2
+		return res
+	}
+	// the persist loop catches up: both jobs are stored as started, no request is pending
+	if !waitSaved(func(s *core.SaveRecord) bool {
+		jx, okx := s.Jobs[x]
+		jy, oky := s.Jobs[y]
+		return okx && oky && jx.Start != nil && jy.Start != nil
+	}) {
+		res.Inconclusive = "the start of the two jobs was not persisted within 10 s (judged by the persist cases)"
+		return res
+	}
+	// ... and the loop is idle: no save for more than one interval (a request that was still pending would have been served
+	// within 3 s of the previous save and would carry the change made below by accident)
+	for idleSince, n := beats.Load(), rec.SaveCount(); beats.Load()-idleSince < 350; {
+		if m := rec.SaveCount(); m != n {
+			n, idleSince = m, beats.Load()
+		}
+		time.Sleep(10 * time.Millisecond)
+	}
+	sd := make(chan struct{})
+	go func() { defer close(sd); _ = sys.Shutdown(5, context.Background(), "graceful") }()
+	began := false
+	for i := 0; i < 4000 && !began; i++ {
+		if _, cls := sys.Schedule(8, "no-such-pipeline-probe", nil, "probe"); cls == "shutting-down" {
+			began = true
+		} else {
+			time.Sleep(100 * time.Microsecond)
+		}
+	}
+	if !began {
+		res.Inconclusive = "the graceful shutdown did not begin"
+		return res
+	}
+	var change string
+	var pred func(j store.PersistedJob) bool
+	if seed%2 == 0 {
+		change = "the acknowledged cancel of a running job"
+		if c := sys.Cancel(0, x); c != "ok" {
+			res.Inconclusive = "cancel during a graceful shutdown: " + c
+			return res
+		}
+		pred = func(j store.PersistedJob) bool { return j.Canceled }
+	} else {
+		change = "the end of a task (and the launch of the next one)"
+		sys.Release(x, "a", core.Outcome{Kind: core.OutOK})
+		pred = func(j store.PersistedJob) bool {
+			for _, t := range j.Tasks {
+				if t.Name == "a" && t.Status == "done" {
+					return true
+				}
+			}
+			return false
+		}
+	}
+	n0 := rec.SaveCount()
+	ok := waitSaved(func(s *core.SaveRecord) bool { j, has := s.Jobs[x]; return has && pred(j) })
+	select {
+	case <-sd:
+		res.Inconclusive = "the graceful shutdown returned although a job is still running"
+		return res
+	default:
+	}
+	res.sit("C11", "persisted while a graceful shutdown is waiting: "+change)
+	res.Evaluations["C11"]++
+	if !ok {
+		find("C11:change-not-persisted-within-interval", "%s happened while a graceful shutdown was waiting for another running job; 10 s later (persist interval 3 s, %d saves since) the store still does not hold it and Shutdown has not returned - a process killed now loses it", change, rec.SaveCount()-n0)
+	}
+	return res
+}
